@@ -58,6 +58,8 @@ class Interp(ExprMixin):
                 return self.eval_quant_obj(f.id, node)
             if f.id == "implies":
                 a = zb(to_bool_term(self.ev(node.args[0])))
+                if z3.is_false(z3.simplify(a)):
+                    return True          # the consequent is not evaluated under a false antecedent (it may be meaningless there)
                 self.ctx.guards.append(a)
                 try:
                     b = zb(to_bool_term(self.ev(node.args[1])))
